@@ -15,7 +15,7 @@ from vlib.evidence import Result
 PROPERTY = "C17"
 LEVEL = "model_checking"
 BOUNDS = {
-    "quick": "pairs+triples of every family universe; all permutations of every <=4-subset (<=5 for keywords) through 6 sort entry points",
+    "quick": "pairs+triples of every family universe; all permutations of every <=4-subset through 8 sort entry points",
     "thorough": "pairs+triples; all permutations of every <=6-subset of every family through 6 sort entry points",
 }
 RULE = (
@@ -40,7 +40,9 @@ def families():
 
     nums = [-1, 0, 0.0, 1, 1.0, Fraction(1, 2), 0.5, Decimal(1), 2**64, float(2**64), float("-inf"), float("inf"), 2**64 + 1]
     strs = ["", "a", "b", "ab", "aa", "B", "a b", "é", "中", "b/a", "a/b", "aaa"]
-    grid = [(ns, n) for ns in (None, "a", "b") for n in ("a", "b", "c")] + [("a", "aa"), ("aa", "a"), ("ab", "b")]
+    # namespaces where one is a proper prefix of the other and the longer continues with a character below "/" (".", "-")
+    # distinguish ordering by (namespace, name) from ordering by the joined text "ns/name"
+    grid = [(ns, n) for ns in (None, "a", "b") for n in ("a", "b", "c")] + [("a", "aa"), ("aa", "a"), ("ab", "b"), ("a.b", "a"), ("a-b", "c"), ("a", "d")]
     kws = [kw.keyword(n, ns=ns) for ns, n in grid]
     syms = [sym.symbol(n, ns=ns) for ns, n in grid]
     v = vec.v
@@ -320,7 +322,7 @@ def run(tier, seed):
     nsh = 8
     for family in fams:
         if tier == "quick":
-            k = 5 if family in ("keywords",) else 4
+            k = 4
         else:
             k = 6
         for s in range(nsh):
